@@ -160,11 +160,17 @@ def run(res, replay=None):
         connected = all(v > 0 for d in (c['spec'].get('migration_rates') or {'x': {'0': 1}}).values() for v in d.values())
         if connected and far[-1] < 1 - 1e-6:
             res.violation('cdf does not tend to 1 although coalescence is certain', {'spec': c['spec'], 'cdf(1e4)': far[-1]})
-        # trapezoid of the survival function on [0, 40] vs the mean truncated at 40 (only when almost all mass is below 40)
+        # the mean against the integral of the survival function on [0, 40] (only when almost all mass is below 40): the cdf is non-decreasing,
+        # so the integral lies between the lower and the upper Riemann sum of 1 - cdf on the grid - a SOUND bracket whatever the time scale of
+        # the model (a trapezoid with a fixed tolerance is not: with sizes of 1/8 the whole law fits into one grid step)
         if grid[-1] > 1 - 1e-7 and r['t_max'] >= 40:
-            integral = sum((2 - a - b) / 2 * 0.125 for a, b in zip(grid, grid[1:]))
-            if C.gt(abs(integral - mean), 2e-3 * max(1.0, mean)):
-                res.violation('integral of 1 - cdf does not reproduce the mean', {'spec': c['spec'], 'integral': integral, 'mean': mean})
+            lower = sum((1 - b) * 0.125 for b in grid[1:])
+            upper = sum((1 - a) * 0.125 for a in grid[:-1])
+            tol_i = 1e-5 * max(1.0, mean)
+            tail = (r['t_max'] - 40) * (1 - grid[-1])      # what the survival function can still contribute between 40 and the horizon
+            if not (lower - tol_i <= mean <= upper + tail + tol_i):
+                res.violation('the mean does not lie between the lower and upper Riemann sums of 1 - cdf',
+                              {'spec': c['spec'], 'lower_sum': lower, 'upper_sum': upper, 'mean': mean})
         res.sample({'spec': c['spec'], 'ts': c['ts'][:4], 'cdf': vec[:4], 'quantiles': tq}, cap=3)
     res.stream('cdf', configurations=len(keep))
     res.extra['input_distribution'] = {'two_loci': sum(1 for s in specs if s.get('loci') == 2),
